@@ -122,6 +122,77 @@ let client_session (items : string) (transcript : string) : string =
       Some { TeiClient.er_state = (k + 1, x, line :: sent); er_out = Tei.lines_of (bytes_of_string out); er_closed = x || cl } in
     session_with eng (0, false, []) (fun (_, _, s) -> s) items
 
+(* ---- the selfplay worker: coq/Selfplay.v with both clients' engine processes = the engine model (or a scripted process) ----
+     CASE W <cutoff> <limit> <gametime> <inc> <p1> <p2> <games> <slow> <transcript2> | <status> <results> <lines of engine 1> <lines of engine 2>
+   p1 / p2 = "real:<depth>" (Tei.v + TeiInst, evaluator 1, no table) or "rules:..." (scripted: the transcript of its answers, as in K
+   cases); games = "<w|b>:<hex TPS>" joined by ","; slow = "-" or "<game>.<call>": that call took 1.5 s, every other call 0 ns;
+   the time left at every call = Limit.  The numbers after movetime / wtime / btime are masked on both sides (wall-clock readings). *)
+type west = Real of TeiInst.coq_SS TeiClient.proc | Script of int * bool
+
+let mask_line (l : string) : string =
+  let ws = S.split_on_char ' ' l in
+  let rec go prev = function
+    | [] -> []
+    | w :: r -> (if prev = "movetime" || prev = "wtime" || prev = "btime" then "#" else w) :: go w r in
+  if ws <> [] && L.hd ws = "go" then S.concat " " (go "" ws) else l
+
+let worker_case (cutoff : string) (limit : string) (gametime : string) (inc : string) (p1 : string) (p2 : string) (games : string)
+    (slow : string) (transcript2 : string) : string =
+  let z s = z_of_i64 (Int64.of_string s) in
+  let mk_eng (spec : string) (transcript : string) =
+    if S.length spec > 5 && S.sub spec 0 5 = "real:" then begin
+      let depth = z_of_int (int_of_string (S.sub spec 5 (S.length spec - 5))) in
+      let mk = TeiInst.inst_mk depth (n_of_int 1) (nat_of_int 0) in
+      ((fun (st, sent) line ->
+         match st with
+         | Real pr ->
+           (match TeiClient.tei_proc Consts.gen_basis mk TeiInst.inst_search pr line with
+            | None -> None
+            | Some r -> Some { TeiClient.er_state = (Real r.TeiClient.er_state, line :: sent); er_out = r.TeiClient.er_out; er_closed = r.TeiClient.er_closed })
+         | Script _ -> None), (Real TeiClient.proc0, []))
+    end else begin
+      let tr = if transcript = "-" then [||] else
+        Array.of_list (L.map (fun e -> match S.split_on_char ':' e with
+                                       | [o; f] -> ((if o = "-" then "" else unhex o), f)
+                                       | _ -> failwith "C17: bad transcript") (S.split_on_char ',' transcript)) in
+      ((fun (st, sent) line ->
+         match st with
+         | Script (k, dead) ->
+           if dead then None else
+           let (out, flags) = if k < Array.length tr then tr.(k) else ("", "-") in
+           let x = S.contains flags 'x' and cl = S.contains flags 'c' in
+           Some { TeiClient.er_state = (Script (k + 1, x), line :: sent); er_out = Tei.lines_of (bytes_of_string out); er_closed = x || cl }
+         | Real _ -> None), (Script (0, false), []))
+    end in
+  let (eng1, s1) = mk_eng p1 "-" and (eng2, s2) = mk_eng p2 transcript2 in
+  let cf = { Selfplay.cf_cutoff = nat_of_int (int_of_string cutoff); cf_limit = z limit; cf_gametime = z gametime; cf_increment = z inc } in
+  let specs = L.map (fun g ->
+      let tps = unhex (S.sub g 2 (S.length g - 2)) in
+      let pos = (match Inst.tps_parse (bytes_of_string tps) with Move.Ok p -> p | _ -> failwith "C17: bad opening") in
+      { Selfplay.sp_opening = pos; sp_p1white = (Stdlib.String.get g 0 = 'w') }) (S.split_on_char ',' games) in
+  let slow_jk = if slow = "-" then (-1, -1) else (match S.split_on_char '.' slow with [a; b] -> (int_of_string a, int_of_string b) | _ -> (-1, -1)) in
+  let dur j k = if (int_of_nat j, int_of_nat k) = slow_jk then z "1500000000" else z "0" in
+  let left _ _ = z limit in
+  let (c1, _) = TeiClient.new_client eng1 s1 in
+  let (c2, _) = TeiClient.new_client eng2 s2 in
+  let ((w, rs), e) = Selfplay.play_games eng1 eng2 Consts.gen_basis cf dur left (nat_of_int 0) { Selfplay.w_c1 = c1; w_c2 = c2 } specs in
+  let c1 = TeiClient.close eng1 w.Selfplay.w_c1 and c2 = TeiClient.close eng2 w.Selfplay.w_c2 in
+  let status = (match e with
+    | None -> "ok"
+    | Some (Selfplay.GPanic (Selfplay.SPIllegal _)) -> "panic:illegal"
+    | Some (Selfplay.GPanic (Selfplay.SPClient pw)) -> "panic:" ^ panic_class pw
+    | Some (Selfplay.GPanic Selfplay.SPRules) -> "panic:rules"
+    | Some (Selfplay.GFatal er) -> "fatal:" ^ err_class er
+    | Some Selfplay.GHang -> "hang"
+    | Some (Selfplay.GDone _) -> "model-bug") in
+  let show (r : Selfplay.result) =
+    let ms = L.map (fun m -> Printf.sprintf "%s.%s.%d.%d" (string_of_z m.PtnMove.mX) (string_of_z m.PtnMove.mY) (int_of_n m.PtnMove.mT) (int_of_n m.PtnMove.mS)) r.Selfplay.r_moves in
+    (if ms = [] then "-" else S.concat "+" ms) ^ ":" ^ hex_of_string (string_of_bytes (Inst.tps_format r.Selfplay.r_position)) ^ ":" ^
+    (match r.Selfplay.r_winner with GameOver.GWhite -> "white" | GameOver.GBlack -> "black" | GameOver.GNone -> "none") in
+  let lines (c : (west * coq_N list list) TeiClient.client) =
+    S.concat "," (L.rev_map (fun l -> hex_of_string (mask_line (string_of_bytes l))) (snd c.TeiClient.c_es)) in
+  status ^ " " ^ (if rs = [] then "-" else S.concat "/" (L.map show rs)) ^ " " ^ lines c1 ^ " " ^ lines c2
+
 let run (_args : string list) =
   run_cases (fun fs ->
     match words (L.hd fs) with
@@ -174,4 +245,6 @@ let run (_args : string list) =
     | ["F"; d] ->
       (string_of_bytes (TeiClient.format_time (z_of_i64 (Int64.of_string d))), None, None)
     | ["K"; items; transcript] -> (client_session (unhex items) transcript, None, None)
+    | ["W"; cutoff; limit; gametime; inc; p1; p2; games; slow; tr2] ->
+      (worker_case cutoff limit gametime inc p1 p2 games slow tr2, None, None)
     | _ -> failwith "C17: bad case")
